@@ -41,6 +41,9 @@ pub struct ConcPlan {
     /// interleave at the handler's await points (slow upload chunks), as on a real actix worker
     #[serde(default)]
     pub same_worker: bool,
+    /// SQLite: capture crash images at every mutating VFS call of the batch (several requests in flight)
+    #[serde(default)]
+    pub crash_images: u8,
 }
 
 pub fn gen_plan(seed: u64, backend: Backend, entry: Entry, thorough: bool) -> ConcPlan {
@@ -142,6 +145,7 @@ pub fn gen_plan(seed: u64, backend: Backend, entry: Entry, thorough: bool) -> Co
         },
         skews_us: (0..3).map(|_| if r.chance(30, 100) { r.range(-5_000_000, 5_000_000) } else { 0 }).collect(),
         same_worker: entry == Entry::Http && r.chance(22, 100),
+        crash_images: if backend == Backend::Sqlite && r.chance(if thorough { 30 } else { 15 }, 100) { 1 + r.below(2) as u8 } else { 0 },
     }
 }
 
@@ -159,10 +163,10 @@ struct Done {
 /// Depth-first search for a linearization: ops whose every real-time predecessor is placed may
 /// go next. `on_match` is called with the model after a complete order that reproduces all
 /// responses; it decides whether the final state matches too.
-fn search(done: &[Done], witness: &[Done], placed: &mut Vec<usize>, model: &Model, http: bool, relax: bool, on_match: &mut dyn FnMut(&Model, &[usize]) -> bool, tried: &mut u32) -> bool {
+fn search(done: &[Done], witness: &[Done], placed: &mut Vec<usize>, path: &mut Vec<Model>, model: &Model, http: bool, relax: bool, on_match: &mut dyn FnMut(&Model, &[usize], &[Model]) -> bool, tried: &mut u32) -> bool {
     if placed.len() == done.len() {
         *tried += 1;
-        return on_match(model, placed);
+        return on_match(model, placed, path);
     }
     for i in 0..done.len() {
         if placed.contains(&i) {
@@ -184,9 +188,11 @@ fn search(done: &[Done], witness: &[Done], placed: &mut Vec<usize>, model: &Mode
                     && witness.iter().any(|o| o.tid != d.tid && o.inv < d.ret && matches!(&o.req, Req::AddVersion { c: c2, .. } if c2 == c))
                 {
                     placed.push(i);
-                    if search(done, witness, placed, model, http, relax, on_match, tried) {
+                    path.push(model.clone());
+                    if search(done, witness, placed, path, model, http, relax, on_match, tried) {
                         return true;
                     }
+                    path.pop();
                     placed.pop();
                     continue;
                 }
@@ -209,9 +215,11 @@ fn search(done: &[Done], witness: &[Done], placed: &mut Vec<usize>, model: &Mode
         };
         for mv in variants {
             placed.push(i);
-            if search(done, witness, placed, &mv, http, relax, on_match, tried) {
+            path.push(mv.clone());
+            if search(done, witness, placed, path, &mv, http, relax, on_match, tried) {
                 return true;
             }
+            path.pop();
             placed.pop();
         }
     }
@@ -277,6 +285,16 @@ pub fn exec(plan: &ConcPlan) -> RunOut {
     }
     let done: Mutex<Vec<Done>> = Mutex::new(Vec::new());
     let t_batch = sched::now_us();
+    let capture = plan.crash_images > 0 && plan.backend == Backend::Sqlite;
+    if capture {
+        if let Some(d) = &w.store.dir {
+            crate::vfs::track(d);
+            crate::vfs::mark_all_durable();
+            crate::vfs::set_capture(true, plan.crash_images as u32, false, 256 << 20);
+            crate::vfs::pause_capture(false);
+            out.bump("cfg.crash_images_during_overlapping_requests");
+        }
+    }
     let same_worker = plan.same_worker && http;
     if same_worker {
         out.bump("cfg.same_worker_async_interleaving");
@@ -350,6 +368,13 @@ pub fn exec(plan: &ConcPlan) -> RunOut {
             done.lock().unwrap().push(Done { tid, req: req.clone(), resp, inv, ret, t_inv, t_ret });
         }
         })
+    };
+    let images = if capture {
+        crate::vfs::pause_capture(true);
+        crate::vfs::set_capture(false, 0, false, 0);
+        crate::vfs::take_images()
+    } else {
+        vec![]
     };
     let mut done = done.into_inner().unwrap();
     done.sort_by_key(|d| d.inv);
@@ -447,9 +472,13 @@ pub fn exec(plan: &ConcPlan) -> RunOut {
     let mut state_mismatch: Option<String> = None;
     let mut state_mismatch_props: Vec<String> = Vec::new();
     let mut half_created = false;
+    // every linearization that reproduces the responses and the final state, with the model after
+    // each of its steps (needed to judge crash images; only the first is needed otherwise)
+    let mut lins: Vec<(Vec<usize>, Vec<Model>)> = Vec::new();
+    let want_all = !images.is_empty();
     {
         let wref = &mut w;
-        let mut on_match = |m: &Model, _order: &[usize]| -> bool {
+        let mut on_match = |m: &Model, order: &[usize], path: &[Model]| -> bool {
             wref.model = m.clone();
             let proj = match wref.take_projection() {
                 Ok(p) => p,
@@ -462,8 +491,11 @@ pub fn exec(plan: &ConcPlan) -> RunOut {
             wref.compare_state(&proj, &mut vs);
             if vs.is_empty() {
                 wref.proj = proj;
-                matched = Some(m.clone());
-                true
+                if matched.is_none() {
+                    matched = Some(m.clone());
+                }
+                lins.push((order.to_vec(), path.to_vec()));
+                !want_all
             } else {
                 state_mismatch = Some(vs[0].msg.clone());
                 state_mismatch_props = vs[0].props.clone();
@@ -471,12 +503,48 @@ pub fn exec(plan: &ConcPlan) -> RunOut {
             }
         };
         let mut placed = Vec::new();
-        if !search(&live, &done, &mut placed, &base_model, http, false, &mut on_match, &mut tried) && http {
-            let mut placed = Vec::new();
-            let mut tried2 = 0;
-            if search(&live, &done, &mut placed, &base_model, http, true, &mut on_match, &mut tried2) {
-                half_created = true;
+        let mut path = Vec::new();
+        let found_strict = std::cell::Cell::new(false);
+        {
+            let mut om = |m: &Model, o: &[usize], p: &[Model]| -> bool {
+                let r = on_match(m, o, p);
+                if r || want_all {
+                    // on_match pushed a linearization iff the state matched
+                }
+                r
+            };
+            search(&live, &done, &mut placed, &mut path, &base_model, http, false, &mut om, &mut tried);
+        }
+        let _ = &found_strict;
+    }
+    if lins.is_empty() && http {
+        // second, relaxed search: recognises known finding F1 and nothing else
+        let wref = &mut w;
+        let mut on_match2 = |m: &Model, order: &[usize], path: &[Model]| -> bool {
+            wref.model = m.clone();
+            let proj = match wref.take_projection() {
+                Ok(p) => p,
+                Err(_) => return false,
+            };
+            let mut vs = Vec::new();
+            wref.compare_state(&proj, &mut vs);
+            if vs.is_empty() {
+                wref.proj = proj;
+                if matched.is_none() {
+                    matched = Some(m.clone());
+                }
+                lins.push((order.to_vec(), path.to_vec()));
+                !want_all
+            } else {
+                false
             }
+        };
+        let mut placed = Vec::new();
+        let mut path = Vec::new();
+        let mut tried2 = 0;
+        search(&live, &done, &mut placed, &mut path, &base_model, http, true, &mut on_match2, &mut tried2);
+        if !lins.is_empty() {
+            half_created = true;
         }
     }
     out.add("probe.linearizations_tried", tried as u64);
@@ -492,6 +560,19 @@ pub fn exec(plan: &ConcPlan) -> RunOut {
             w.model = m;
             // sequential observation on the agreed state: chains walk, snapshots are usable bases
             w.full_check(&mut out);
+            // crash images taken while several requests were in flight: each must hold the effects of
+            // all acknowledged requests, of any subset of the started ones, in some real-time order
+            if !images.is_empty() && !crate::report::should_stop(&out) {
+                let all_ids: std::collections::BTreeSet<uuid::Uuid> = w.model.known_ids();
+                for (ii, img) in images.iter().enumerate() {
+                    out.bump(&format!("fault.crash_during_overlap.{}", img.kind));
+                    if let Some(v) = verify_overlap_image(plan, &base_model, &live, &lins, img, ii, &all_ids) {
+                        out.violations.push(v);
+                        break;
+                    }
+                }
+                out.add("probe.overlap_crash_images_verified", images.len() as u64);
+            }
             // bounded liveness after faults stop: a fresh request is served without waiting
             let t0 = sched::now_us();
             for c in w.clients.clone() {
@@ -650,4 +731,88 @@ pub fn shrink(plan: &ConcPlan) -> Vec<ConcPlan> {
         c.push(p);
     }
     c
+}
+
+/// Recover an image captured during a batch. The durable state must be what some valid
+/// linearization leaves after a prefix (in its order) that contains every acknowledged *effect*
+/// and only requests that had started: acknowledged writes are present, each request in flight is
+/// completely applied or completely absent.
+fn verify_overlap_image(plan: &ConcPlan, base: &Model, live: &[Done], lins: &[(Vec<usize>, Vec<Model>)], img: &crate::vfs::Image, idx: usize, all_ids: &std::collections::BTreeSet<uuid::Uuid>) -> Option<crate::report::Violation> {
+    let dir = crate::world::fresh_dir("oimg");
+    if crate::vfs::materialise(img, &dir).is_err() {
+        return None;
+    }
+    let label = format!("image #{idx} ({} before `{}`, event {}, {})", img.kind, img.at_call, img.stamp, img.detail.trim());
+    let t_save = sched::now_us();
+    let sig = |m: &Model| -> String {
+        m.clients
+            .iter()
+            .map(|(k, c)| format!("{}:{}:{}:{:?}", crate::model::sid(k), c.exists, c.versions.len(), c.snap.as_ref().map(|s| (crate::model::sid(&s.version), s.since, crate::rng::fnv(&s.data)))))
+            .collect::<Vec<_>>()
+            .join("|")
+    };
+    let result = (|| -> Option<crate::report::Violation> {
+        let mut w = match World::attach(plan.seed, &dir, Entry::Lib, plan.n_clients, plan.cfg, base.clone()) {
+            Ok(w) => w,
+            Err(e) => return Some(viol(&["C04"], "crash.cannot_open", format!("{label}: the database does not open after a crash during overlapping requests: {e:#}"))),
+        };
+        match rusqlite::Connection::open(dir.join(crate::world::DB_FILE)).and_then(|c| c.query_row("PRAGMA integrity_check", [], |r| r.get::<_, String>(0))) {
+            Ok(s) if s == "ok" => {}
+            Ok(s) => return Some(viol(&["C04"], "crash.integrity", format!("{label}: integrity_check says {s}"))),
+            Err(e) => return Some(viol(&["C04"], "crash.integrity", format!("{label}: integrity_check failed: {e}"))),
+        }
+        w.extra_ids = all_ids.clone();
+        w.tolerate_empty_clients = true;
+        let proj = match w.take_projection() {
+            Ok(p) => p,
+            Err(e) => return Some(viol(&["C04"], "crash.unreadable", format!("{label}: {e:#}"))),
+        };
+        let mut why = String::new();
+        let mut tried_sigs: std::collections::BTreeSet<String> = Default::default();
+        for (order, path) in lins {
+            // path[j] = model after order[0..=j]; state before anything = base
+            let mut prev_sig = sig(base);
+            // index of the last acknowledged effect in this order
+            let mut must_reach: usize = 0; // number of steps that must be included
+            let mut effect: Vec<bool> = Vec::new();
+            for (j, oi) in order.iter().enumerate() {
+                let sg = sig(&path[j]);
+                let has_effect = sg != prev_sig;
+                prev_sig = sg;
+                effect.push(has_effect);
+                if has_effect && live[*oi].ret < img.stamp {
+                    must_reach = j + 1;
+                }
+            }
+            for k in must_reach..=order.len() {
+                // every effect among the first k steps must belong to a request that had started
+                if (0..k).any(|j| effect[j] && live[order[j]].inv >= img.stamp) {
+                    break;
+                }
+                let m = if k == 0 { base } else { &path[k - 1] };
+                let sg = sig(m);
+                if !tried_sigs.insert(sg) {
+                    continue;
+                }
+                w.model = m.clone();
+                let mut vs = Vec::new();
+                w.compare_state(&proj, &mut vs);
+                if vs.is_empty() {
+                    return None;
+                }
+                why = vs[0].msg.clone();
+            }
+        }
+        Some(viol(
+            &["C04", "C03"],
+            "crash.overlap_half_applied_or_lost",
+            format!(
+                "{label}: the recovered state is not a commit-order prefix (containing every acknowledged write) of any valid ordering of the batch ({why}); batch: {}",
+                live.iter().map(|d| format!("t{}[{}..{}] {} -> {}", d.tid, d.inv, d.ret, d.req.short(), d.resp.short())).collect::<Vec<_>>().join("; ")
+            ),
+        ))
+    })();
+    sched::set_now_us(t_save);
+    let _ = std::fs::remove_dir_all(&dir);
+    result
 }
